@@ -1279,3 +1279,107 @@ Proof.
   replace (0 <? len content) with true by (symmetry; apply Z.ltb_lt; lia).
   eexists. split; [reflexivity|]. cbn [ltext lz intag rawtag lerr lbuf]. repeat split.
 Qed.
+
+(* ---- bogus comments: "<?" body ">", "<!" body ">" (no comment, CDATA or doctype), "</" non-letter body ">" -------------- *)
+Lemma bogus_loop_run z bs rest : reads z (bs ++ 62 :: rest) -> Forall (fun c => c <> 62) bs ->
+  loop (fuel_of z) bogus_body z = Ok (mv z (len bs), 1).
+Proof.
+  intros Hr Hb. pose proof (len_nonneg bs).
+  apply (loop_scan _ z (len bs)); [lia| | |eapply fuel_of_enough; [exact Hr|rewrite len_app, len_cons; pose proof (len_nonneg rest); lia]].
+  - intros i Hi. destruct (peekz_in bs i Hi) as (c & Hc & Hin). rewrite Forall_forall in Hb. specialize (Hb c Hin).
+    unfold bogus_body. rewrite pkr_mv0, (reads_pkr z _ i c Hr (peekz_app_l' _ _ _ _ Hc)). cbn [rbind].
+    replace (c =? 62) with false by (symmetry; apply Z.eqb_neq; exact Hb).
+    rewrite (reads_eof0_in z _ i c Hr (peekz_app_l' _ _ _ _ Hc)). rewrite mv_mv. reflexivity.
+  - unfold bogus_body. rewrite pkr_mv0, (reads_pkr z _ (len bs) 62 Hr) by (rewrite peekz_app_r0; apply peekz_cons_0). reflexivity.
+Qed.
+
+Lemma prefixb_stop p x : forall body rest, ~ In x p -> prefixb p (body ++ x :: rest) = prefixb p body.
+Proof.
+  induction p as [|y p IH]; intros body rest Hn; [reflexivity|]. destruct body as [|b body]; cbn [app prefixb].
+  - replace (y =? x) with false; [reflexivity|]. symmetry. apply Z.eqb_neq. intros ->. apply Hn. left. reflexivity.
+  - rewrite IH; [reflexivity|]. intros Hin. apply Hn. right. exact Hin.
+Qed.
+
+Lemma shift_bogus_run z k bs rest : lx_wf z -> lstart z = lpos z -> 0 <= k -> 2 <= k + len bs ->
+  reads (mv z k) (bs ++ 62 :: rest) -> Forall (fun c => c <> 62) bs ->
+  shift_bogus (mv z k) = Ok (mkSl (lpos z) (k + len bs + 1), mkSl (lpos z + 2) (k + len bs - 2), skip (mv z (k + len bs + 1))).
+Proof.
+  intros Hw Hcl Hk H2 Hr Hb. pose proof (len_nonneg bs). pose proof (len_nonneg rest).
+  unfold shift_bogus. rewrite (bogus_loop_run _ bs rest Hr Hb). cbn [rbind fst snd].
+  destruct Hr as [Hwk Hrem].
+  destruct (rem_mv _ (len bs) Hwk) as [_ Hw1]; [rewrite Hrem, len_app, len_cons; lia|].
+  rewrite lexeme_from_spec by (exact Hw1 || (cbn [mv lpos lstart]; lia)). cbn [rbind].
+  destruct (rem_mv _ (len bs + 1) Hwk) as [_ Hw2]; [rewrite Hrem, len_app, len_cons; lia|].
+  assert (Hw2' : lx_wf (mv (mv (mv z k) (len bs)) 1)) by (rewrite (mv_mv (mv z k)); exact Hw2).
+  rewrite shiftv_spec by exact Hw2'. cbn [rbind fst snd mv lstart lpos lbuf skip]. rewrite Hcl.
+  do 3 f_equal; [f_equal; lia|f_equal; lia|].
+  rewrite !mv_mv. f_equal. lia.
+Qed.
+
+Definition bogus_open (c1 : Z) (body : list Z) : Prop :=
+  c1 = 63 \/
+  (c1 = 33 /\ prefixb [45; 45] body = false /\ prefixb [91; 67; 68; 65; 84; 65; 91] body = false /\
+     (body = [] \/ exists x r, body = x :: r /\ 0 <= x < 256 /\ x <> 100 /\ x <> 68)) \/
+  (c1 = 47 /\ exists c2 r, body = c2 :: r /\ is_letter c2 = false).
+
+Lemma next_bogus d l pre c1 body rest :
+  at_input d l pre (60 :: c1 :: body ++ 62 :: rest) -> intag l = false -> rawtag l = 0 ->
+  bogus_open c1 body -> Forall (fun c => c <> 62) body ->
+  exists l', next no_tmpl l = Ok (CommentT, Some (mkSl (len pre) (3 + len body)), l') /\
+    ltext l' = Some (mkSl (len pre + 2) (len body)) /\ lbuf (lz l') = lbuf (lz l) /\
+    intag l' = false /\ rawtag l' = 0 /\ lerr l' = lerr l.
+Proof.
+  intros Hat Hit Hraw Hopen Hbody. pose proof (at_input_reads _ _ _ _ Hat) as Hr.
+  destruct Hat as (Hi & Hcl & Hd & Hp). pose proof Hi as ((Hw & _) & _).
+  pose proof (len_nonneg body). pose proof (len_nonneg rest).
+  assert (Hlen : len (60 :: c1 :: body ++ 62 :: rest) = 3 + len body + len rest) by (rewrite !len_cons, len_app, len_cons; lia).
+  unfold next. cbn [lz rawtag intag lerr ltext lattr lhas]. rewrite Hit, Hraw. cbn [Z.eqb negb].
+  unfold next_content. cbn [lz rawtag intag lerr ltext lattr lhas].
+  pose proof (reads_mv _ _ 2 Hr ltac:(lia)) as Hr2.
+  change (skipz 2 (60 :: c1 :: body ++ 62 :: rest)) with (body ++ 62 :: rest) in Hr2.
+  destruct Hopen as [->|[(-> & Hnc & Hncd & Hnd)|(-> & c2 & r & Eb & Hnl)]].
+  - (* "<?" *)
+    destruct (text_loop_dispatch (lz l) 63 _ Hr Hcl) as [Hdisp|Hno]; [|exfalso; apply Hno; tauto].
+    change (if is_letter 63 then DStartTag else if 63 =? 33 then DMarkup else if 63 =? 63 then DBogusQ else DEndTag) with DBogusQ in Hdisp.
+    rewrite Hdisp. cbn [rbind].
+    pose proof (reads_mv _ _ 1 Hr ltac:(lia)) as Hr1.
+    change (skipz 1 (60 :: 63 :: body ++ 62 :: rest)) with ((63 :: body) ++ 62 :: rest) in Hr1.
+    rewrite (shift_bogus_run (lz l) 1 (63 :: body) rest Hw Hcl ltac:(lia) ltac:(rewrite len_cons; lia) Hr1)
+      by (constructor; [discriminate|exact Hbody]).
+    cbn [rbind fst snd]. rewrite len_cons, Hp.
+    replace (1 + (1 + len body) + 1) with (3 + len body) by lia. replace (1 + (1 + len body) - 2) with (len body) by lia.
+    eexists. split; [reflexivity|]. cbn [ltext lz intag rawtag lerr lbuf skip mv]. repeat split.
+  - (* "<!" *)
+    destruct (text_loop_dispatch (lz l) 33 _ Hr Hcl) as [Hdisp|Hno]; [|exfalso; apply Hno; tauto].
+    change (if is_letter 33 then DStartTag else if 33 =? 33 then DMarkup else if 33 =? 63 then DBogusQ else DEndTag) with DMarkup in Hdisp.
+    rewrite Hdisp. cbn [rbind]. unfold read_markup.
+    rewrite (reads_at (lz l) _ 2 [45; 45] Hr) by (repeat constructor; lia || lia).
+    change (skipz 2 (60 :: 33 :: body ++ 62 :: rest)) with (body ++ 62 :: rest).
+    rewrite prefixb_stop by (intros [E|[E|[]]]; discriminate). rewrite Hnc. cbn [rbind].
+    rewrite (reads_at (lz l) _ 2 [91; 67; 68; 65; 84; 65; 91] Hr) by (repeat constructor; lia || lia).
+    change (skipz 2 (60 :: 33 :: body ++ 62 :: rest)) with (body ++ 62 :: rest).
+    rewrite prefixb_stop by (intros [E|[E|[E|[E|[E|[E|[E|[]]]]]]]]; discriminate). rewrite Hncd. cbn [rbind].
+    assert (Hci : atci_from (mv (lz l) 2) 0 [100; 111; 99; 116; 121; 112; 101] = Ok false).
+    { cbn [atci_from]. destruct Hnd as [->|(x & r & -> & Hx & Hx1 & Hx2)].
+      - rewrite (reads_pkr _ _ 0 62 Hr2) by apply peekz_cons_0. reflexivity.
+      - rewrite (reads_pkr _ _ 0 x Hr2) by apply peekz_cons_0. cbn [rbind].
+        replace ((x =? 100) || ((x + 32) mod 256 =? 100)) with false; [reflexivity|].
+        symmetry. apply orb_false_iff. split; apply Z.eqb_neq; [exact Hx1|].
+        destruct (Z.lt_ge_cases (x + 32) 256) as [Hs|Hs].
+        + rewrite Z.mod_small by lia. lia.
+        + replace (x + 32) with (x + 32 - 256 + 1 * 256) by lia. rewrite Z.mod_add by lia. rewrite Z.mod_small by lia. lia. }
+    rewrite Hci. cbn [rbind].
+    rewrite (shift_bogus_run (lz l) 2 body rest Hw Hcl ltac:(lia) ltac:(lia) Hr2 Hbody). cbn [rbind fst snd]. rewrite Hp.
+    replace (2 + len body + 1) with (3 + len body) by lia. replace (2 + len body - 2) with (len body) by lia.
+    eexists. split; [reflexivity|]. cbn [ltext lz intag rawtag lerr lbuf skip mv]. repeat split.
+  - (* "</" + non-letter *)
+    assert (Hc2 : c2 <> 62) by (subst body; inversion Hbody; assumption).
+    destruct (text_loop_dispatch (lz l) 47 _ Hr Hcl) as [Hdisp|Hno].
+    2:{ exfalso. apply Hno. right; right; right. split; [reflexivity|]. subst body. cbn [app]. eexists _, _. split; [reflexivity|exact Hc2]. }
+    change (if is_letter 47 then DStartTag else if 47 =? 33 then DMarkup else if 47 =? 63 then DBogusQ else DEndTag) with DEndTag in Hdisp.
+    rewrite Hdisp. cbn [rbind].
+    rewrite (reads_pkr _ _ 0 c2 Hr2) by (subst body; apply peekz_cons_0). cbn [rbind]. rewrite Hnl. cbn [negb].
+    rewrite (shift_bogus_run (lz l) 2 body rest Hw Hcl ltac:(lia) ltac:(lia) Hr2 Hbody). cbn [rbind fst snd]. rewrite Hp.
+    replace (2 + len body + 1) with (3 + len body) by lia. replace (2 + len body - 2) with (len body) by lia.
+    eexists. split; [reflexivity|]. cbn [ltext lz intag rawtag lerr lbuf skip mv]. repeat split.
+Qed.
